@@ -272,7 +272,8 @@ def _r1(ctx, m):
     inc = incs[0] if incs else None
     # (b) loops
     if (counter is not None and inc is None) or len(cols) != 1 or len(vals) != 1:
-        ctx.bad("R1", "csr-sites", W, f"expected one cols.append, one vals.append and one increment; found {len(cols)}, {len(vals)}, {len(incs)}")
+        # several append sites (arms of a condition, stages): a spelling of the scan that is not understood
+        ctx.unrec("R1", "csr-sites", W, f"expected one cols.append, one vals.append and one increment; found {len(cols)}, {len(vals)}, {len(incs)}")
         return
     c, v = cols[0], vals[0]
     together = [c, v] + ([inc] if inc is not None else [])
@@ -321,13 +322,23 @@ def _r1(ctx, m):
         return
     rowloop, colloop = scan
     rowstart, complete, found_rows = origin
-    ctx.check(complete, "R1", "row-loop", (FILE, rowloop.line), f"the row loop `for {rowloop.target} in ..` visits every row 0 .. n_eqns-1 once, ascending",
-              expected="range(n_eqns)  /  range(0, n_eqns*n_eqns, n_eqns)  /  one item per element of range(n_eqns)", found=found_rows[:100])
+    def bounds_known(lp_):
+        """the loop's range(..) bounds are arithmetic over n_spec / n_eqns / integers: a bound that is NOT n_eqns is then a wrong bound"""
+        r_ = [x for x in walk_(simp(lp_.iter)) if isinstance(x, tuple) and len(x) == 4 and x[0] == "call" and x[1] == ("global", "range")]
+        return bool(r_) and all(m._known_arith(a_) for x in r_ for a_ in x[2]) and not any(isinstance(x, tuple) and x and x[0] == "comp" and any(g_[2] for g_ in x[3]) for x in walk_(simp(lp_.iter)))
+    if complete or bounds_known(rowloop) or "filtered" in found_rows[:12]:
+        ctx.check(complete, "R1", "row-loop", (FILE, rowloop.line), f"the row loop `for {rowloop.target} in ..` visits every row 0 .. n_eqns-1 once, ascending",
+                  expected="range(n_eqns)  /  range(0, n_eqns*n_eqns, n_eqns)  /  one item per element of range(n_eqns)", found=found_rows[:100])
+    else:
+        ctx.unrec("R1", "row-loop", (FILE, rowloop.line), f"the bounds of the row loop are not understood: {found_rows[:100]}")
     it = simp(colloop.iter)
     if form == "range":
         ok = len(it[2]) == 1 and not it[3] and m.is_n_eqns(it[2][0])
-        ctx.check(ok, "R1", "col-loop", (FILE, colloop.line), f"col loop is `for {colloop.target} in range(n_eqns)` (ascending, complete)",
-                  expected="range(n_eqns)", found=show(it)[:100])
+        if ok or bounds_known(colloop):
+            ctx.check(ok, "R1", "col-loop", (FILE, colloop.line), f"col loop is `for {colloop.target} in range(n_eqns)` (ascending, complete)",
+                      expected="range(n_eqns)", found=show(it)[:100])
+        else:
+            ctx.unrec("R1", "col-loop", (FILE, colloop.line), f"the bounds of the column loop are not understood: {show(it)[:100]}")
         colvar = ("elem", it, colloop.id)
         entry = None            # from the guard, below
     else:
@@ -402,22 +413,56 @@ def _r1(ctx, m):
                       found=show(slot_idx)[:120])
         else:
             ctx.ok("R1", "entry-index", (FILE, c.line), "the tested entry is the element the column loop enumerates: jacrhs[row*n_eqns + col]")
-        ctx.check(simp(c.value) == colvar, "R1", "cols-value", (FILE, c.line),
-                  "the column list receives the column loop variable", found=show(simp(c.value))[:80])
+        cv = simp(c.value)
+        rowvar_ = ("elem", simp(rowloop.iter), rowloop.id)
+        # wrong: another position built from the two loop variables; a value computed elsewhere is not understood
+        pos_known = all(x in (colvar, rowvar_) or x[0] in ("binop", "const", "unop") or m.is_n_eqns(x) for x in _atoms(cv, (colvar, rowvar_), m))
+        if cv == colvar or pos_known:
+            ctx.check(cv == colvar, "R1", "cols-value", (FILE, c.line), "the column list receives the column loop variable", found=show(cv)[:80])
+        else:
+            ctx.unrec("R1", "cols-value", (FILE, c.line), f"the value appended to the column list is not traced to the loop variables: {show(cv)[:80]}")
         lw = lower(v.value)
         hv = list(lw.holes.values())
         ok = len(hv) == 1 and hv[0] in (entry, ("fmt", entry, None, -1)) and lw.text.strip() == next(iter(lw.holes))
-        ctx.check(ok, "R1", "vals-value", (FILE, v.line), "the value list receives that same entry, unchanged", found=lw.text)
+        if ok or (len(hv) == 1 and hv[0] in (entry, ("fmt", entry, None, -1)) and not lw.seqs) or not hv:
+            # wrong: the entry with text around it, or a constant
+            ctx.check(ok, "R1", "vals-value", (FILE, v.line), "the value list receives that same entry, unchanged", found=lw.text)
+        else:
+            ctx.unrec("R1", "vals-value", (FILE, v.line), f"the value appended to the value list is not traced to the tested entry: {lw.text[:80]}")
     # (f) nothing else touches the lists
     allnames = set(sum(names.values(), []))
     extra = [f for f in fl.facts if f.target in allnames and f.kind not in ("init", "append")]
-    ctx.check(not extra, "R1", "no-other-writer", (FILE, extra[0].line if extra else m.func.lineno),
-              "the CSR lists are only initialised empty and appended to", found="; ".join(f"{f.kind}@{f.line}" for f in extra))
+    grow = [f for f in extra if f.kind == "mutate" and f.op in ("extend", "__iadd__", "iadd")]
+    if extra and len(grow) == len(extra):
+        # further elements added in bulk: another spelling of filling the lists, not understood here
+        ctx.unrec("R1", "no-other-writer", (FILE, extra[0].line), "the CSR lists also grow by " + "; ".join(f"{f.op}@{f.line}" for f in extra) + ": not understood")
+    else:
+        ctx.check(not extra, "R1", "no-other-writer", (FILE, extra[0].line if extra else m.func.lineno),
+                  "the CSR lists are only initialised empty and appended to", found="; ".join(f"{f.kind}@{f.line}" for f in extra))
     for nm in sorted(allnames):
         ini = [f for f in fl.facts if f.kind == "init" and f.target == nm]
         empty = ("list", (("const", 0),)) if (trailing and nm in names["rows"]) else ("list", ())
-        ctx.check(len(ini) == 1 and simp(ini[0].value) == empty and not ini[0].loops, "R1", f"init:{nm}", (FILE, ini[0].line if ini else m.func.lineno),
-                  f"`{nm}` starts as the empty list, once" if empty == ("list", ()) else f"`{nm}` starts as [0], once", found="; ".join(show(f.value) for f in ini))
+        good = len(ini) == 1 and simp(ini[0].value) == empty and not ini[0].loops
+        # wrong: initialised more than once / inside a loop, or to a display with other content; another kind of value is not understood
+        if good or len(ini) != 1 or ini[0].loops or simp(ini[0].value)[0] == "list":
+            ctx.check(good, "R1", f"init:{nm}", (FILE, ini[0].line if ini else m.func.lineno),
+                      f"`{nm}` starts as the empty list, once" if empty == ("list", ()) else f"`{nm}` starts as [0], once", found="; ".join(show(f.value) for f in ini))
+        else:
+            ctx.unrec("R1", f"init:{nm}", (FILE, ini[0].line), f"the initial value of `{nm}` is not read as a list display: {show(simp(ini[0].value))[:80]}")
+
+
+def _atoms(v, leaves, m):
+    """the sub-terms of an index expression down to the given leaves / n_eqns spellings (which are not entered)"""
+    if v in leaves or m.is_n_eqns(v) or not isinstance(v, tuple):
+        yield v
+        return
+    if v[0] in ("binop", "unop"):
+        yield v
+        for x in v[2:]:
+            if isinstance(x, tuple):
+                yield from _atoms(x, leaves, m)
+        return
+    yield v
 
 
 def _evaluated_after(fl, v, use_seq, after_seq):
@@ -434,12 +479,18 @@ def _evaluated_after(fl, v, use_seq, after_seq):
 def _r2_r5(ctx, m, tsent=()):
     pkg = package(ctx.tree)
     sent = {}
+    notread = []        # sentinel sites that exist but whose literal could not be read
     fl = m.flow
     for s in m.sites:
         if s.array == "jacrhs" and s.kind == "init":
             v = simp(s.fact.value)
-            lits = [x[1] for x in __import__("sa.valueflow", fromlist=["walk"]).walk(v) if isinstance(x, tuple) and len(x) == 2 and x[0] == "const" and isinstance(x[1], str)]
-            sent[("jacrhs init", FILE, s.line)] = lits[0] if len(lits) == 1 else None
+            # the cell the table is filled with, read by value ([c] * n * n, [c for ..], repeat(c, n) ..)
+            from .c02 import const_table
+            t = const_table(v)
+            if t is not None and t[0][0] == "const":
+                sent[("jacrhs init", FILE, s.line)] = t[0][1]
+            else:
+                notread.append(("jacrhs init", s.line, show(v)[:100]))
         if s.array == "jacrhs" and s.kind == "wrap":
             v = s.value
             if v[0] == "ifexp" and v[1][0] == "cmp":
@@ -467,9 +518,14 @@ def _r2_r5(ctx, m, tsent=()):
     _pattern_writer(ctx, rf, fn, sent)
     # R2 verdict
     W = (FILE, m.func.lineno)
-    ctx.floor("R2", "sentinel sites", len(sent), 6 if "csr_sentinel" not in ctx.stats else 7, W)
-    vals = set(sent.values())
+    for label, line, what in notread:
+        ctx.unrec("R2", f"sentinel:{label}", (FILE, line), f"the literal the {label} uses as sentinel could not be read: {what}")
+    ctx.floor("R2", "sentinel sites", len(sent) + len(notread), 6 if "csr_sentinel" not in ctx.stats else 7, W)
     for (label, rel, line), lit in sorted(sent.items()):
+        if lit is None:
+            # the site exists but does not compare with / keep a literal: not understood (a DIFFERENT literal is the violation)
+            ctx.unrec("R2", f"sentinel:{label}", (rel, line), f"the literal the {label} uses as sentinel could not be read")
+            continue
         ctx.check(lit == "0.0", "R2", f"sentinel:{label}", (rel, line), f"{label} uses the sentinel '0.0'", expected="'0.0'", found=repr(lit))
 
 
@@ -599,6 +655,13 @@ def _pattern_writer(ctx, rf, fn, sent):
 
 # ------------------------------------------------------------------ R3
 
+def _walk_j(e):
+    if isinstance(e, tuple):
+        yield e
+        for y in e:
+            yield from _walk_j(y)
+
+
 def _loop_sites(ctx, label, rel, cfg, fname, field, lhs_pat):
     """In function `fname`: exactly one loop writes `lhs[ <index> ] = {{ entry }}`; it must iterate ode.jac.<field>."""
     # `{% set %}` variables read as the expressions they stand for, index arithmetic in canonical form (`loop.index - 1` = `loop.index0`)
@@ -615,7 +678,7 @@ def _loop_sites(ctx, label, rel, cfg, fname, field, lhs_pat):
         if mm:
             hits.append((it, flat, mm))
     if len(hits) != 1:
-        (ctx.bad if hits else ctx.missing)("R3", key, (rel, 0), f"{fname} has {len(hits)} loops writing {lhs_pat.split('[')[0].strip(chr(92))}[..], expected one")
+        (ctx.unrec if hits else ctx.missing)("R3", key, (rel, 0), f"{fname} has {len(hits)} loops writing {lhs_pat.split('[')[0].strip(chr(92))}[..], expected one")
         return
     it, flat, mm = hits[0]
     FIELD = ("attr", ("attr", ("name", "ode"), "jac"), field)
@@ -646,9 +709,17 @@ def _loop_sites(ctx, label, rel, cfg, fname, field, lhs_pat):
     base, fs = J.unfilter(val)
     ok_idx = idx == ("attr", ("name", "loop"), "index0")
     ok_val = base == var and all(f[0] in ("stmwrap",) or (f[0] == "replace" and field == "vals") for f in fs)
-    ctx.check(ok_idx and ok_val, "R3", key, (rel, it[5]),
-              f"entry n of ode.jac.{field} is written to position n (loop.index0), unfiltered",
-              expected="[loop.index0] = entry", found=f"[{J.show(idx)}] = {J.show(val)}")
+    from .c02 import _paths_in
+    # wrong: a subscript that is other arithmetic over the loop position, a value that is another field of the Jacobian / another
+    # loop variable; anything else (a helper macro, a further filter) is not understood
+    idx_known = _paths_in(idx) <= {"loop", "loop.index0", "loop.index"} and not any(isinstance(x, tuple) and x and x[0] in ("call", "filter", "item") for x in _walk_j(idx))
+    val_known = (base == var and not fs) or (base != var and (base[0] == "name" or (J.path(base) or "").startswith("ode.jac.")))
+    if (ok_idx and ok_val) or ((ok_idx or idx_known) and (ok_val or val_known)):
+        ctx.check(ok_idx and ok_val, "R3", key, (rel, it[5]),
+                  f"entry n of ode.jac.{field} is written to position n (loop.index0), unfiltered",
+                  expected="[loop.index0] = entry", found=f"[{J.show(idx)}] = {J.show(val)}")
+    else:
+        ctx.unrec("R3", key, (rel, it[5]), f"the statement filling this array is not understood: [{J.show(idx)[:60]}] = {J.show(val)[:80]}")
 
 
 def _r3(ctx):
@@ -656,7 +727,11 @@ def _r3(ctx):
     m = model(ctx.tree)
     from ..odemodel import write_read_order
     last, first = write_read_order(m, "jacrhs")
-    if last is not None and first is not None:
+    from .c02 import _csr_consumer
+    if last is not None and first is not None and last.seq >= first[0] and not _csr_consumer(m, first):
+        ctx.unrec("R3", "csr built from the final jacrhs", (FILE, last.line), f"jacrhs is read at line {first[1]} ({first[2]}) before its last store at line {last.line}; that reader is "
+                  "not recognised as the CSR builder / the Jacobian object")
+    elif last is not None and first is not None:
         ctx.check(last.seq < first[0], "R3", "csr built from the final jacrhs", (FILE, last.line),
                   "the CSR arrays are built after the last store into jacrhs" if last.seq < first[0] else
                   f"jacrhs is modified at line {last.line} after the CSR arrays were built (line {first[1]}): sparse and dense layouts hold different values",
@@ -707,7 +782,13 @@ def _r3(ctx):
                 ctx.bad("R3", "cvode/cusparse:InitJac:binding", (JAC, it[2]), f"{arr} is initialised from {J.show(base)}, not from {p}", expected=p, found=J.show(base))
                 continue
             good = base == FIELD and names[:1] == ["join"] and all(n == "stmwrap" for n in names[1:])
-            ctx.check(good, "R3", key, (JAC, it[2]), f"{arr} initialiser is the complete {p} sequence joined by ', '", found=J.show(it[1]))
+            cut = any(n in ("select", "reject", "selectattr", "rejectattr", "slice", "batch", "unique", "sort", "reverse", "first", "last") for n in names) or base != FIELD and base[0] == "item"
+            # wrong: a filtered / sliced / re-ordered view of the field; other filters are not understood
+            root = base[1] if base[0] == "item" else base
+            if good or (cut and J.path(root) == p):
+                ctx.check(good, "R3", key, (JAC, it[2]), f"{arr} initialiser is the complete {p} sequence joined by ', '", found=J.show(it[1]))
+            else:
+                ctx.unrec("R3", key, (JAC, it[2]), f"the initialiser of {arr} is not understood: {J.show(it[1])[:100]}")
         elif it[0] == "for":
             root = it[2]
             while root[0] in ("filter", "item"):
@@ -765,9 +846,15 @@ def _r4_reactions(ctx):
     inits = [f for f in fl.facts if f.kind == "init" and f.value and f.value[0] == "meth" and f.value[2] == "_assign_rates"]
     inits += [type("F", (), {"value": v, "line": line}) for nm, lst in fl.assigns.items() for v, loops, g, line, seq in lst if v[0] == "meth" and v[2] == "_assign_rates"]
     k = [f for f in inits if f.value[3] and f.value[3][0] == ("const", "k")]
-    ok = bool(k) and all(simp(f.value[3][1]) == m.REAC_FIELD for f in k)
-    ctx.check(ok, "R4", "k assignments enumerate netinfo.reactions", (FILE, k[0].line if k else m.func.lineno),
-              "_assign_rates('k', ..) receives netinfo.reactions", found=show(simp(k[0].value[3][1]))[:80] if k else "missing")
+    ok = bool(k) and all(len(f.value[3]) > 1 and simp(f.value[3][1]) == m.REAC_FIELD for f in k)
+    # wrong: the rates are assigned over the locally extended view of the list (or over another list of the network)
+    k_known = bool(k) and all(len(f.value[3]) > 1 and (simp(f.value[3][1]) in (m.REAC, m.HEAT, m.COOL) or (simp(f.value[3][1])[0] == "attr" and simp(f.value[3][1])[1] == m.NI)) for f in k)
+    if ok or k_known:
+        ctx.check(ok, "R4", "k assignments enumerate netinfo.reactions", (FILE, k[0].line if k else m.func.lineno),
+                  "_assign_rates('k', ..) receives netinfo.reactions", found=show(simp(k[0].value[3][1]))[:80] if k else "missing")
+    else:
+        ctx.unrec("R4", "k assignments enumerate netinfo.reactions", (FILE, k[0].line if k else m.func.lineno),
+                  "the call _assign_rates('k', <list>, ..) was not found / its list is not traced to a field of netinfo")
     # (b) the field receives network.reactions (the property that supplies the dummy reaction of an empty network)
     import ast as _ast
     for file, cls, meth in ((FILE, "TemplateLoader", "render"), ("naunet/patches.py", "EnzoPatch", "render")):
@@ -822,16 +909,41 @@ def _r4(ctx):
             "NCOOLPROCS": ("filter", "length", ("attr", ("name", "network"), "cooling"), (), ()),
             "NREACTIONS": ("filter", "length", ("attr", ("name", "network"), "reactions"), (), ()),
             "NNZ": ("attr", ("attr", ("name", "ode"), "jac"), "nnz")}
+    from .c02 import _paths_in
     for name, w in want.items():
         got = defs.get(name)
-        ctx.check(got is not None and got[0] == w, "R4", f"macro:{name}", (MACROS, got[1] if got else 0),
-                  f"{name} is defined as {J.show(w)} -- the length of the sequence the generator enumerates",
-                  expected=J.show(w), found=J.show(got[0]) if got else "undefined")
-    txt = _norm(strip_comments(tree.read(MACROS)))
-    ctx.check("#defineTHERMAL(NHEATPROCS||NCOOLPROCS)" in txt, "R4", "macro:THERMAL", (MACROS, 0), "THERMAL = (NHEATPROCS || NCOOLPROCS), as has_thermal in Python")
+        # wrong: undefined, or another expression over the network's lists / the Jacobian's fields (another list, a length off by one);
+        # a value computed some other way (macro, helper filter) is not understood
+        known = got is not None and all(p_.split(".")[0] in ("network", "ode") for p_ in _paths_in(got[0])) and \
+            not any(isinstance(x, tuple) and x and (x[0] in ("call", "test") or (x[0] == "filter" and x[1] not in ("length", "int"))) for x in _walk_j(got[0]))
+        if got is None or got[0] == w or known:
+            ctx.check(got is not None and got[0] == w, "R4", f"macro:{name}", (MACROS, got[1] if got else 0),
+                      f"{name} is defined as {J.show(w)} -- the length of the sequence the generator enumerates",
+                      expected=J.show(w), found=J.show(got[0]) if got else "undefined")
+        else:
+            ctx.unrec("R4", f"macro:{name}", (MACROS, got[1]), f"{name} is defined as `{J.show(got[0])[:100]}`: not read as a length / field of the rendered objects")
+    raw = strip_comments(tree.read(MACROS))
+    txt = _norm(raw)
+
+    def cpp_defs(name):
+        """the replacement texts of `#define <name> ..` and whether all of them are arithmetic over the size macros only"""
+        reps = [_norm(x) for x in re.findall(r"^[ \t]*#[ \t]*define[ \t]+" + name + r"\b(.*)$", raw, flags=re.M)]
+        plain = bool(reps) and all(re.fullmatch(r"[\w()+\-*|&<>?:!=]*", r_) and set(re.findall(r"[A-Za-z_]\w*", r_)) <= {"NSPECIES", "THERMAL", "NHEATPROCS", "NCOOLPROCS", "NEQUATIONS"}
+                                   for r_ in reps)
+        return reps, plain
+    ok = "#defineTHERMAL(NHEATPROCS||NCOOLPROCS)" in txt
+    reps, plain = cpp_defs("THERMAL")
+    if ok or not reps or plain:
+        ctx.check(ok, "R4", "macro:THERMAL", (MACROS, 0), "THERMAL = (NHEATPROCS || NCOOLPROCS), as has_thermal in Python", found="; ".join(reps) or "undefined")
+    else:
+        ctx.unrec("R4", "macro:THERMAL", (MACROS, 0), f"the definition of THERMAL is not understood: {'; '.join(reps)[:100]}")
     ok = "#if(NSPECIES+THERMAL)#defineNEQUATIONS(NSPECIES+THERMAL)#else#defineNEQUATIONS1#endif" in txt
-    ctx.check(ok, "R4", "macro:NEQUATIONS", (MACROS, 0), "NEQUATIONS = max(NSPECIES + THERMAL, 1), the same function as Python's n_eqns",
-              expected="#if (NSPECIES + THERMAL) / #define NEQUATIONS (NSPECIES + THERMAL) / #else / #define NEQUATIONS 1")
+    reps, plain = cpp_defs("NEQUATIONS")
+    if ok or not reps or plain:
+        ctx.check(ok, "R4", "macro:NEQUATIONS", (MACROS, 0), "NEQUATIONS = max(NSPECIES + THERMAL, 1), the same function as Python's n_eqns",
+                  expected="#if (NSPECIES + THERMAL) / #define NEQUATIONS (NSPECIES + THERMAL) / #else / #define NEQUATIONS 1", found="; ".join(reps) or "undefined")
+    else:
+        ctx.unrec("R4", "macro:NEQUATIONS", (MACROS, 0), f"the definition of NEQUATIONS is not understood: {'; '.join(reps)[:100]}")
     # --- declarations, constructors, offsets in every back-end template and configuration
     targets = []
     for rel in sorted(tree.glob("naunet/templates/cvode/src/*.j2") + tree.glob("naunet/templates/cvode/include/*.j2")):
@@ -854,8 +966,11 @@ def _r4(ctx):
             if key in seen:
                 continue
             seen.add(key)
-            ctx.check(size == FAMILY[name], "R4", key, (rel, code.count("\n", 0, mm.start()) + 1),
-                      f"array `{name}` is declared with the size macro of its family", expected=f"{name}[{FAMILY[name]}]", found=f"{name}[{size}]")
+            if size == FAMILY[name] or _size_known(size):
+                ctx.check(size == FAMILY[name], "R4", key, (rel, code.count("\n", 0, mm.start()) + 1),
+                          f"array `{name}` is declared with the size macro of its family", expected=f"{name}[{FAMILY[name]}]", found=f"{name}[{size}]")
+            else:
+                ctx.unrec("R4", key, (rel, code.count("\n", 0, mm.start()) + 1), f"array `{name}` is declared with a size that is not arithmetic over the size macros: {size[:60]}")
         for fn, want_args in (("SUNDenseMatrix", None), ("SUNSparseMatrix", ["NEQUATIONS", "NEQUATIONS", "NNZ", "CSR_MAT"]),
                               ("SUNMatrix_cuSparse_NewBlockCSR", [None, "NEQUATIONS", "NEQUATIONS", "NNZ"]),
                               ("N_VNewEmpty_Serial", ["(sunindextype)NEQUATIONS"]), ("N_VNew_Cuda", ["NEQUATIONS*n_system_per_stream"]),
@@ -871,17 +986,33 @@ def _r4(ctx):
                 got = [_norm(a) for a in args[:len(w)]]
                 good = all(x is None or x == g for x, g in zip(w, got)) and len(got) == len(w)
                 key = f"{label}:{fname}:{fn}"
-                ctx.check(good, "R4", key, (rel, code.count("\n", 0, mm.start()) + 1),
-                          f"{fn} in {fname} is sized by the macros of its family", expected=str(w), found=str(got))
+                if good or all(_size_known(g_.replace("(sunindextype)", "").replace("n_system_per_stream", "1")) or g_ in ("CSR_MAT", "CSC_MAT") for x_, g_ in zip(w, got) if x_ is not None):
+                    ctx.check(good, "R4", key, (rel, code.count("\n", 0, mm.start()) + 1),
+                              f"{fn} in {fname} is sized by the macros of its family", expected=str(w), found=str(got))
+                else:
+                    ctx.unrec("R4", key, (rel, code.count("\n", 0, mm.start()) + 1), f"{fn} in {fname}: arguments {got} are not arithmetic over the size macros")
         for var, mac in (("yistart", "NEQUATIONS"), ("jistart", "NNZ")):
             for mm in re.finditer(r"\b" + var + r"\s*=\s*([^;]+);", code):
                 noff += 1
                 f = sk.func_of_offset(mm.start())
-                ctx.check(_norm(mm.group(1)) in (f"cur*{mac}", f"{mac}*cur"), "R4", f"{label}:{f.name if f else '?'}:{var}",
-                          (rel, code.count("\n", 0, mm.start()) + 1), f"kernel offset {var} = cur * {mac}", expected=f"cur * {mac}", found=mm.group(1).strip())
+                off = _norm(mm.group(1))
+                if off in (f"cur*{mac}", f"{mac}*cur") or _size_known(off.replace("cur", "1")):
+                    ctx.check(off in (f"cur*{mac}", f"{mac}*cur"), "R4", f"{label}:{f.name if f else '?'}:{var}",
+                              (rel, code.count("\n", 0, mm.start()) + 1), f"kernel offset {var} = cur * {mac}", expected=f"cur * {mac}", found=mm.group(1).strip())
+                else:
+                    ctx.unrec("R4", f"{label}:{f.name if f else '?'}:{var}", (rel, code.count("\n", 0, mm.start()) + 1), f"kernel offset {var} = {mm.group(1).strip()[:60]}: not understood")
     ctx.floor("R4", "array declarations", ndecl, 36)
     ctx.floor("R4", "matrix/vector constructors", nctor, 12)
     ctx.floor("R4", "kernel offsets", noff, 3)
+
+
+_SIZE_MACROS = {"NREACTIONS", "NHEATPROCS", "NCOOLPROCS", "NEQUATIONS", "NNZ", "NSPECIES", "NELEMENTS", "THERMAL"}
+
+
+def _size_known(size: str) -> bool:
+    """the (whitespace-free) size expression is integer arithmetic over the size macros: a value that differs from the family's macro
+    is then a different size, not an unknown one"""
+    return bool(re.fullmatch(r"[\w()+\-*/]+", size)) and set(re.findall(r"[A-Za-z_]\w*", size)) <= _SIZE_MACROS
 
 
 def _split_args(code, i):
